@@ -396,6 +396,10 @@ def measure2(cases, lines):
 
 
 # ----------------------------------------------------------------------------------------------- stages
+GEN = ['gen_keeper.json', 'gen_arrit.json', 'gen_shifter.json', 'gen_array.json', 'gen_mmguard.json', 'gen_selguard.json',
+       'gen_dtguard.json', 'gen_treeit.json']
+
+
 def regen_table(ctx):
     out = os.path.join(ctx.cdir, 'Gen_VersionTable.v')
     try:
@@ -414,12 +418,12 @@ def regen_table(ctx):
         ctx.coverage['version_table'] = {'rows': len(rows),
                                          'mutators': [(r['class'], r['method'], r['all']) for r in rows if r['all']][:400],
                                          'non_const_non_bumping': [(r['class'], r['method']) for r in rows if not r['any'] and not r['const']]}
-        return ctx.stage('regen', True)
+        return ctx.stage('regen-table', True)
     except cxx2coq.TranslationError as e:
         if os.path.exists(out):
             os.remove(out)
         ctx.tie_obligations.append({'name': 'version table regenerated from the clang AST', 'ok': False, 'error': str(e)[:500]})
-        return ctx.stage('regen', False, str(e))
+        return ctx.stage('regen-table', False, str(e))
 
 
 def run_harness(ctx, exe, cases, name):
@@ -473,6 +477,8 @@ def oracle3_case(case, out):
     """harness3: the harness's own twins / 'rejected call changed the container' checks"""
     if out.startswith('CRASH') or out.startswith('?') or out == '<missing>':
         return ['harness reported %s' % out]
+    if case.startswith('g '):
+        return ['%s: %s' % (case, out)] if out.startswith('C!') else []
     ops = case.split()[1:]
     for o, t in zip(ops, out.split(' | ')[0].split()):
         if t.startswith('X'):
@@ -501,6 +507,7 @@ def run(ctx):
     ctx.assumptions += ['version counters do not wrap (size_t)',
                         'handles are not used after their container (its SetCrew::Data cell) has been destroyed or assigned to',
                         'ResetKey is given a key equivalent to the old one (otherwise hash/order is broken: outside the claim)']
+    ctx.regen(GEN)            # cxx2coq: the real guard prefixes (VersionKeeper::Check, index / range / count guards, iterator ++ / ->)
     regen_table(ctx)
     ctx.prove()
     jobs = [('harness.cpp', 'harness', []), ('harness2.cpp', 'harness2', []), ('harness3.cpp', 'harness3', [])]
@@ -585,6 +592,17 @@ def run(ctx):
                     return 'final-state'
                 report(ctx, [(c, a, 'model and implementation disagree (first differing call: %s): impl=%s model=%s' % (first_diff(c, a, b), a[-200:], b[-200:]))
                              for (i, c, a, b) in mism3], 'harness3')
+            if have_model:
+                cg = cases3.gen_guards()
+                mismg, _ = ctx.correspond('generated-guards-vs-real-functions', cg, [h3], [ctx.model_exe])
+                ctx.tie_obligations.append({'name': 'cxx2coq-generated guard prefixes == the real functions (accept / invalid_argument / length error, resulting index) on %d boundary cases' % len(cg),
+                                            'ok': not mismg})
+                import collections
+                ctx.coverage['generated_guard_cases'] = dict(collections.Counter(c.split()[1] for c in cg))
+                for (i, c, a, b) in mismg[:3]:
+                    ctx.violation('generated guard and real function disagree: real=%s generated=%s' % (a, b),
+                                  {'case': c, 'impl': a, 'model': b, 'harness': 'harness3', 'cmd': 'echo "%s" | build/C15/harness3' % c}, found_input=True)
+            c3 = c3 + cases3.gen_guards()
             rc, l3, err = run_harness(ctx, h3, c3, 'oracle3')
             ctx.evaluations += len(c3)
             bad3 = [(c, o, oracle3_case(c, o)[0]) for c, o in zip(c3, l3) if oracle3_case(c, o)]
